@@ -66,7 +66,7 @@ def new_quic_session(impl, lines):
     from ref import synth
     from tlexport.packet import Packet
     frame = synth.udp_frame(b"\x02\0\0\0\0\x01", b"\x02\0\0\0\0\x02", b"\x0a\0\0\x01", b"\x0a\0\0\x02", 50000, 443, b"\xc0" + bytes(30))
-    s = impl.qs.QuicSession(Packet(frame, 1.0), [443], impl.keylog(lines), {})
+    s = impl.qs.QuicSession(Packet(frame, 1.0), [443], impl.keylog(lines), {}, True)
     s.quic_version = impl.qd.QuicVersion.V1
     return s
 
